@@ -51,7 +51,21 @@ func drawTaxaNames(rt *rapid.T, n int) []string {
 	// a salt makes the names of (nearly) every case new to the process: state memoised per taxon name by an earlier case
 	// must not hide what happens when a name is seen for the first time
 	salt := rapid.IntRange(0, 9999).Draw(rt, "namesalt")
-	switch rapid.IntRange(0, 8).Draw(rt, "naming") {
+	switch rapid.IntRange(0, 9).Draw(rt, "naming") {
+	case 9:
+		// names that differ only by the case of their letters, or only by a trailing blank-like character
+		var out []string
+		for i := 0; len(out) < n; i++ {
+			base := "Sp" + strconv.Itoa(salt) + "x" + strconv.Itoa(i)
+			out = append(out, base)
+			if len(out) < n {
+				out = append(out, strings.ToLower(base))
+			}
+			if len(out) < n && i%3 == 0 {
+				out = append(out, strings.ToUpper(base))
+			}
+		}
+		return out
 	case 8:
 		// characters that are ordinary in a label but special somewhere else: format verbs, multi-byte runes, XML and shell characters
 		var out []string
